@@ -15,10 +15,7 @@ func init() {
 }
 
 func vC20spec() vSpec {
-	if vTier() == 1 {
-		return vSpec{Depth: 3, Width: 2, Kinds: "mls", KeyAlpha: "ab-", KeyMin: 1, KeyMax: 1, StrAlpha: "x", StrMax: 0, NoListInList: true}
-	}
-	return vSpec{Depth: 2, Width: 2, Kinds: "mlsn", KeyAlpha: "ab-", KeyMin: 1, KeyMax: 1, StrAlpha: "x", StrMax: 0, NoListInList: true}
+	return vSpec{Depth: vP("depth", 2, 3), Width: vP("width", 2, 2), Kinds: []string{"mls", "mlsn"}[vP("nil", 1, 0)], KeyAlpha: "ab-", KeyMin: 1, KeyMax: 1, StrAlpha: "x", StrMax: 0, NoListInList: true}
 }
 
 func vSegs(p string) int { return len(strings.Split(p, ".")) }
@@ -109,10 +106,7 @@ func refNoAttrWild(m map[string]interface{}, keys []string) []interface{} {
 func H_C20_w_values() {
 	spec := vC20spec()
 	m := vNondetMap(spec)
-	n := 1 + vChoose(2)
-	if vTier() == 1 {
-		n = 1 + vChoose(3)
-	}
+	n := 1 + vChoose(vP("steps", 2, 3))
 	keys := make([]string, n)
 	for i := range keys {
 		if vChoose(3) == 0 {
